@@ -84,7 +84,10 @@ func (s *Sched) SetStrategy(st Strategy) { s.strat = st }
 
 // Yield is the hook body: park the calling actor until the scheduler releases it.
 func Yield(site string, who int) {
-	bindExplicit(who)
+	yieldAs(site, bindExplicit(who))
+}
+
+func yieldAs(site string, who int) {
 	raceDisable()
 	Progress.Add(1) // inside the hidden region: an atomic all actors touch must not order them for the race detector
 	s := cur.Load()
